@@ -51,7 +51,7 @@ def gen_cases(ck):
                 elif r < 0.25:
                     seq.append(["fr", cid])
                 elif r < 0.35:
-                    seq.insert(0, ["fw", cid, rng.randrange(0, 6)])
+                    seq.insert(0, sg.fw(cid, rng.randrange(0, 6), rng.choice(sg.IO_KINDS)))
                 elif r < 0.55:
                     t = tags.next()
                     owner[t] = cid
